@@ -1,4 +1,5 @@
 import PicoProofs.EndToEnd
+import PicoProofs.GoTieApi
 import PicoProofs.Tie
 /-
 C02 — Unmarshal reads every valid protobuf encoding of a message to the same values.
@@ -21,6 +22,17 @@ theorem C02_unmarshal_is_spec (S : Schema) (hS : S.supported = true) (id : Nat) 
       (d.err = none ↔ (Spec.specUnmarshal S id data m0).isSome) ∧
       (d.err = none → Spec.specUnmarshal S id data m0 = some m) :=
   unmarshal_refines_spec S hS id data m0 hm0
+
+/-- the same about the Go source itself (`GoTie.srcUnmarshal` = the translated message.go `Unmarshal`
+running the translated decoder.go on the generated `Decode`): for every byte string it returns nil
+exactly when the specification accepts, and then the message is the specification's -/
+theorem C02_source_unmarshal_is_spec (S : Schema) (hS : S.supported = true) (id : Nat) (data : Bytes) (m0 : Val)
+    (hm0 : shMsg S id m0 = true) :
+    ∃ m err, GoTie.srcUnmarshal S id data m0 = .ok (m, err) ∧
+      (err = none ↔ (Spec.specUnmarshal S id data m0).isSome) ∧
+      (err = none → Spec.specUnmarshal S id data m0 = some m) := by
+  obtain ⟨d, m, hr, h1, h2⟩ := unmarshal_refines_spec S hS id data m0 hm0
+  exact ⟨m, d.err, GoTie.srcUnmarshal_of S id data m0 d m hr, h1, h2⟩
 
 /-- into a fresh message (the usual call), no hypothesis on anything but the schema -/
 theorem C02_unmarshal_fresh_is_spec (S : Schema) (hS : S.supported = true) (id : Nat) (data : Bytes) :
